@@ -109,8 +109,10 @@ class Recorder(object):
 def run_case(case):
     rec = Recorder(case)
     integ = FakeIntegrator(rec)
+    extend = case.get('extend')
     s = Solver(dim=1, integrator=integ, kernel=None,
-               n_damp=case['ndamp'], tf=case['tf'], dt=case['dt0'],
+               n_damp=case['ndamp'], tf=extend if extend else case['tf'],
+               dt=case['dt0'],
                adaptive_timestep=bool(case['adaptive']),
                output_at_times=list(case['outs']))
     s.particles = []
@@ -131,8 +133,24 @@ def run_case(case):
             mark, t1, c1 = len(rec.log), s.t, s.count
             s.set_max_steps(case['maxsteps'])
             s.solve(show_progress=False)
+        elif extend:
+            # the run reached its final time; the final time is moved on and
+            # solve() is called again (requested times beyond the first
+            # final time are still to be honoured)
+            mark, t1, c1 = len(rec.log), s.t, s.count
+            s.set_final_time(case['tf'])
+            s.solve(show_progress=False)
     except Exception as ex:  # the property says solve() terminates
         err = '%s: %s' % (type(ex).__name__, ex)
+        if extend and mark is not None and 'no termination' in err:
+            # after the final time was reached the solver goes on with the
+            # clipped last step as its nominal one; when that step is tiny
+            # the continued run needs more events than the driver records:
+            # only the first call is judged
+            err = None
+            rec.log = rec.log[:mark]
+            mark = None
+            case = dict(case, tf=extend)
     finally:
         solver_mod.dump = old
     tr = dict(id=case['id'], exact=bool(case.get('exact', False)),
@@ -141,15 +159,19 @@ def run_case(case):
               pfreq=case['pfreq'], outs=[rec.quant(x) for x in case['outs']],
               ndamp=case['ndamp'], adaptive=bool(case['adaptive']),
               props=[rec.quant(x) for x in case['props']],
-              maxsteps=case['maxsteps'], t0=0, c0=0, log=rec.log)
+              maxsteps=case['maxsteps'], t0=0, c0=0, norec=False,
+              log=rec.log)
     if err:
         tr['error'] = err
         return [tr]
     if mark is None:
         return [tr]
     tr2 = dict(tr, id=case['id'] + '+r', exact=False, t0=rec.quant(t1),
-               c0=int(c1), log=rec.log[mark:])
-    tr.update(maxsteps=resume, log=rec.log[:mark])
+               c0=int(c1), norec=bool(extend), log=rec.log[mark:])
+    if resume:
+        tr.update(maxsteps=resume, log=rec.log[:mark])
+    else:
+        tr.update(tf=rec.quant(extend), log=rec.log[:mark])
     return [tr, tr2]
 
 
